@@ -1122,8 +1122,14 @@ def ext_attr(I, mod, name, node):
             if not isinstance(x, str):
                 raise Unsupported("pathlib.Path of a symbolic string")
             pp = pathlib.PurePosixPath(x)
-            return PObj("Path", {"name": pp.name, "stem": pp.stem, "suffix": pp.suffix, "parent": str(pp.parent),
-                                 "text": x})
+            po = PObj("Path", {"name": pp.name, "stem": pp.stem, "suffix": pp.suffix, "parent": str(pp.parent),
+                               "text": x})
+            tr = (I.ctx.contract.trace or {})
+            for meth in ("is_file", "exists", "is_dir"):
+                if f"Path.{meth}" in tr:
+                    po.fields[meth] = PBuiltin(meth, (lambda m: lambda I2, *a, **k: I2.ctx.record_external(
+                        I2, f"Path.{m}", m, {"self": po}, tr[f"Path.{m}"]))(meth))
+            return po
         return PBuiltin("Path", mkpath)
     if base == "pprint" and name in ("pformat",):
         from .interp import FStr
